@@ -35,7 +35,7 @@ def split_bundle(text):
     procs = []
     cur = None
     for line in text.split("\n"):
-        m = re.match(r"(?i)^procedure\s+(\w+)\s*$", line)
+        m = re.match(r"(?i)^procedure\s+([\w-]+)\s*$", line)
         if m:
             cur = [m.group(1), []]
             procs.append(cur)
@@ -122,12 +122,24 @@ def programs(tier):
         ("text-control-chars", "10 DATA \"A\x0bB\" , C\x1cD , E\x85F\n20 READ A$ , B$ , C$"),
         ("text-quote-balance", '10 PRINT "A" ; : HDRAW "U5" : PRINT "B"'),
         ("own-name", '10 PRINT "X" : REM RUN prog'),
+        ("text-comment-marker-in-string", '10 A$ = HEX$ ( 3 ) + "(*"'),
+        ("text-comment-marker-in-string", '10 PRINT STR$ ( 4 ) ; " REM"'),
+        ("text-comment-marker-in-string", '10 A$ = STRING$ ( 3 , "(*" ) + STR$ ( 7 )'),
+        ("text-comment-marker-in-string", '10 PRINT "REM" ; INT ( A ) ; "*)"'),
+        ("text-comment-marker-in-string", "10 PRINT \"IT'S\" ; HEX$ ( A )"),
+        ("text-comment-marker-in-data", "10 DATA (* X , REM\n20 READ A$ , B$ : PRINT INT ( A )"),
     ]
+    # the requested procedure name: legal names are kept, others fall back to `program`; the bundle is complete either way
+    for pn in ("hello", "hello ", "hello.world", "my game", "v2+", "a$", "9", "_x", "x-y", "", "PROG", "ecb_cls"):
+        for src in ("10 A$ = HEX$ ( 3 )", '10 PRINT "X"'):
+            progs.append(("procname:" + (re.sub(r"[a-z0-9]+", "w", pn.lower()) or "empty"), src, pn))
     return progs
 
 
 def check_one(job):
-    label, src, size = job
+    label, src, size = job[:3]
+    procname = job[3] if len(job) > 3 else "prog"
+    OPTS = dict(globals()["OPTS"], procname=procname)
     st = smt.Stats()
     smt.STATS = st
     out = {"job": job, "sigs": [], "status": None, "nprocs": 0}
@@ -148,8 +160,8 @@ def check_one(job):
     def sig(kind, detail):
         out["sigs"].append((f"{kind}:{label}", detail))
 
-    if not names or names[-1] != "prog":
-        sig("program-not-last", f"procedure order {names[-3:]}")
+    if not names or names[-1] not in (procname, "program"):
+        sig("program-not-last", f"procedure order {names[-3:]} (requested name {procname!r})")
         out["stats"] = st.export()
         return out
     if "<preamble>" in names:
@@ -176,7 +188,7 @@ def check_one(job):
     if extra:
         sig("procedure-unreachable", f"present but not reachable through RUN: {extra[:4]}")
     # every RUN in the bundle resolves
-    present = got | {"prog"}
+    present = got | {names[-1].lower()}
     for n, b in procs:
         for callee in runs_in(b):
             c = callee.lower()
@@ -246,7 +258,7 @@ def run(tier):
     ctx = Ctx("C13", tier, "translation_validation", technique="bundle linker with the reachable set computed by z3's Fixedpoint (datalog) engine over independently parsed RUN edges; z3 regex queries over the real procbank regexes")
     smt.reset_stats()
     progs = programs(tier)
-    jobs = [(label, src, size) for label, src in progs for size in (32, 40)]
+    jobs = [(p[0], p[1], size) + tuple(p[2:3]) for p in progs for size in (32, 40)]
     ctx.bounds.update({"programs": len(progs), "sizes": [32, 40], "options": OPTS})
     for rel in ("coco/b09/procbank.py", "coco/b09/compiler.py"):
         ctx.encode(rel + " (executed: real convert())", repo_source(rel))
@@ -262,7 +274,7 @@ def run(tier):
         else:
             ctx.stats["identity"] += 1
         for sig, detail in r["sigs"]:
-            ctx.violation(sig, f"{r['job'][1]!r} (size {r['job'][2]}) -> {detail}", {"source": r["job"][1], "default_str_storage": r["job"][2]})
+            ctx.violation(sig, f"{r['job'][1]!r} (size {r['job'][2]}) -> {detail}", {"source": r["job"][1], "default_str_storage": r["job"][2], "procname": (r["job"][3] if len(r["job"]) > 3 else "prog")})
     for r in results[:: max(1, len(results) // 6)]:
         ctx.sample({"source": r["job"][1], "size": r["job"][2], "status": r["status"], "procedures_in_bundle": r["nprocs"]})
     regex_lemmas(ctx)
@@ -275,7 +287,7 @@ def run(tier):
 
 def replay(rec):
     if "source" in rec:
-        r = check_one(("replay", rec["source"], rec.get("default_str_storage", 32)))
+        r = check_one(("replay", rec["source"], rec.get("default_str_storage", 32), rec.get("procname", "prog")))
         print(r["sigs"])
         return bool(r["sigs"])
     return True
